@@ -77,6 +77,8 @@ PAIRS = [
     (E('\\usepackage{xspace} a\\xspace b', pack=None), E('a\\xspace b', pack=None)),
     (E('\\newcommand{\\zzo}[2][dflt]{#1-#2} \\zzo{x} \\zzo[y]{z}'), E('\\newcommand{\\zzo}[1]{(#1)} \\zzo{x}')),
     (E('\\usepackage[russian]{babel} \\[a\\] $b$', True, 2, **MLK), E('\\[a\\] $b$', True, 2, **MLK)),
+    (E('\\selectlanguage{austrian} x \\foreignlanguage{klingon}{y}', True, 2, **MLK), E('\\usepackage[ngerman,austrian]{babel} y \\foreignlanguage{klingon}{z} u', True, 2, **MLK)),
+    (E('\\usepackage[klingon]{babel} x', True, 2, **MLK), E('\\documentclass[french,klingon]{article}\\usepackage{babel} y', True, 2, pack=None, lang='en-GB')),
     (E('\\begin{itemize}\\item a \\begin{itemize} \\item b', dcls='article'), E('\\begin{itemize}\\item c\\end{itemize}', dcls='article')),
 ]
 POOL = [e for p in PAIRS for e in p]
@@ -112,8 +114,9 @@ _ref = {}
 
 def workdir():
     global _workdir
-    if _workdir is None or not os.path.isdir(_workdir):
-        _workdir = os.path.join(sut.scratch_dir(), 'c17')
+    want = os.path.join(sut.scratch_dir(), 'c17')       # per process: shards are forked from the runner
+    if _workdir != want or not os.path.isdir(_workdir):
+        _workdir = want
         os.makedirs(_workdir, exist_ok=True)
         for f, txt in FILES.items():
             with open(os.path.join(_workdir, f), 'w', encoding='utf-8') as fh:
